@@ -490,8 +490,13 @@ def oracle_sequences(ck, tier):
     L = lambda **k: (lambda A, d: A.linbasex.linbasex_transform_full(sq, basis_dir=d, legendre_orders=k.get("orders", [0, 2]),
                                                                       proj_angles=k.get("angles", [0, np.pi / 2]), radial_step=k.get("step", 1), clip=k.get("clip", 0))[0])
 
+    shared_origin = [10, 10]            # an origin kept in one list object by the caller and moved in place between calls
+
     def R(**k):
         def f(A, d):
+            if "move_origin" in k:
+                shared_origin[:] = k["move_origin"]
+                k["origin"] = shared_origin
             r = A.rbasex.rbasex_transform(k.get("im", sq), origin=k.get("origin", "center"), rmax=k.get("rmax", "MIN"), order=k.get("order", 2),
                                           odd=k.get("odd", False), direction=k.get("direction", "inverse"), reg=k.get("reg", None),
                                           out=k.get("out", "same"), basis_dir=d)
@@ -514,7 +519,9 @@ def oracle_sequences(ck, tier):
                          R(origin=(7, 10), rmax=10, order=1, odd=True, out="same")],
                         [R(order=2, direction="forward"), R(order=4, direction="forward"), R(order=2, direction="forward", out="full"), R(order=6, direction="forward", out="full")],
                         [R(im=im, origin=(12, 20), out="full"), R(im=im, origin=(15, 18), out="full"), R(im=im, origin=(15, 18), rmax=12, out="same")],
-                        [R(reg=("L2", 3.0)), R(reg=("diff", 1.0)), R(reg=None), R(reg=("L2", 3.0), order=4)]],
+                        [R(reg=("L2", 3.0)), R(reg=("diff", 1.0)), R(reg=None), R(reg=("L2", 3.0), order=4)],
+                        [R(move_origin=[10, 10]), R(move_origin=[7, 12]), R(move_origin=[10, 10]), R(move_origin=[12, 9], out="full")],
+                        [R(origin=np.array([7, 10])), R(origin=np.array([7, 10])), R(origin=(7, 10)), R(origin=np.array([9.0, 11.0]))]],
     }
     scratch = os.environ.get("VERIF_SCRATCH")
     refs = {}
@@ -536,8 +543,16 @@ def oracle_sequences(ck, tier):
                                 refs[(short, si, ci)] = _reference(modname, f)
                             want = refs[(short, si, ci)]
                         except Exception as e:
-                            ck.notes.append(f"sequence {short}/{si}/{ci}: {type(e).__name__}: {e}")
-                            continue
+                            try:                                 # a call that fails here but not in a pristine process depends on history
+                                if (short, si, ci) not in refs:
+                                    refs[(short, si, ci)] = _reference(modname, f)
+                                ck.violation(dict(site=short, clause="history-dependent-result"),
+                                             dict(module=short, session=si, call=ci, basis_dir=str(use_dir), pass_=rep_),
+                                             f"{short}: call {ci} of curated session {si} raised {type(e).__name__}: {e} — the same call succeeds in a pristine process")
+                                break
+                            except Exception:
+                                ck.notes.append(f"sequence {short}/{si}/{ci}: {type(e).__name__}: {e}")
+                                continue
                         if not same_result(got, want, 1e-9):
                             ck.violation(dict(site=short, clause="history-dependent-result"),
                                          dict(module=short, session=si, call=ci, basis_dir=str(use_dir), pass_=rep_),
